@@ -24,6 +24,7 @@ pub fn after_run(w: &mut World, ops: &[Op]) -> Res {
         "C18" => c18(w, ops),
         "C17" => c17(w),
         "C07" => c07(w, ops),
+        "C14" => c14(w, ops),
         "C02" => c02(w, ops),
         _ => Ok(()),
     }
@@ -970,5 +971,55 @@ fn c02(w: &mut World, _ops: &[Op]) -> Res {
             }
         }
     }
+    Ok(())
+}
+
+// ------------------------------------------------------------------------------------ C14
+
+/// Every set of heads a replica ever had: at the end of the history each replica travels to each
+/// of its checkpoints (reload_until and new_until) and back (reload).
+fn c14(w: &mut World, ops: &[Op]) -> Res {
+    let cfg = w.cfg.clone();
+    for r in 0..w.replicas.len().min(3) {
+        if w.replicas[r].live.is_none() {
+            continue;
+        }
+        let staged = { let m = w.replicas[r].live.as_ref().unwrap(); guard(|| m.has_staging()).unwrap_or(true) };
+        if staged {
+            continue;
+        }
+        let n = w.replicas[r].checkpoints.len();
+        // all of them when few, else the oldest, the newest and a seeded selection in between
+        let mut picks: Vec<usize> = (0..n).collect();
+        if n > 10 {
+            let mut rng = Rng::derive(cfg.seed, 0xC14 + r as u64);
+            rng.shuffle(&mut picks);
+            picks.truncate(8);
+            picks.push(0);
+            picks.push(n - 1);
+            picks.sort();
+            picks.dedup();
+        }
+        for idx in picks {
+            // no fork needed: a plain reload brings the replica back to the latest state
+            w.bump("enum.c14_checkpoint_forks");
+            if w.replicas[r].checkpoints[idx].heads.len() > 1 {
+                w.bump("enum.c14_multihead_forks");
+            }
+            let heads = w.replicas[r].checkpoints[idx].heads.clone();
+            for o in [Op::ReloadUntil { r, sel: idx as u32 }, Op::Reload { r }] {
+                match w.exec(&o) {
+                    Ok(()) => {}
+                    Err(Stop::Violation(mut v)) => {
+                        v.detail = format!("at the end of the history replica {} travels to its checkpoint #{} of {} ({:?}): {}", r, idx, n, heads, v.detail);
+                        return Err(Stop::Violation(v));
+                    }
+                    Err(other) => return Err(other),
+                }
+            }
+        }
+    }
+    let _ = ops;
+    crate::seam::install(cfg.hash_seed, cfg.order_seed, cfg.cache_ad, cfg.cache_data);
     Ok(())
 }
